@@ -303,3 +303,125 @@ Proof.
   destruct (Device.run c h) as [sf os] eqn:E.
   pose proof (disconnect_silences c h Ha) as H. rewrite E in H. exact H.
 Qed.
+
+(* ---- event boundaries.  The ghost [d_done] records the events a device process has taken; while the device is not
+   disconnected its model state is the state after exactly those events, and what it has handed over plus what it still
+   holds of the current event is exactly the model's output for them. *)
+Definition dghost (c : config) (h : list ev) (sent : list msg) (d : dproc) : Prop :=
+  d_done d ++ d_todo d = h /\
+  (d_closed d = false ->
+   d_state d = fst (Device.run c (d_done d)) /\ sent ++ d_pend d = all_midi (snd (Device.run c (d_done d)))).
+
+Definition ghost_ok (ds : list (config * list ev)) (s : estate) : Prop :=
+  forall k d c h, nth_error (e_devs s) k = Some d -> nth_error ds k = Some (c, h) -> dghost c h (o_sent (e_relay s) k) d.
+
+Lemma run_snoc c l e :
+  Device.run c (l ++ [e]) =
+  let '(s1, o1) := Device.run c l in let '(s2, o) := Device.step c s1 e in (s2, o1 ++ [o]).
+Proof.
+  unfold Device.run. rewrite run_from_app. destruct (Device.run_from c (Device.init c) l) as [s1 o1].
+  cbn [Device.run_from]. destruct (Device.step c s1 e) as [s2 o]. reflexivity.
+Qed.
+
+Lemma ghost_init ds : ghost_ok ds (einit ds).
+Proof.
+  intros k d c h Hd Hc. unfold einit in Hd. cbn [e_devs] in Hd. rewrite nth_error_map, Hc in Hd. cbn in Hd. injection Hd as <-.
+  split; [reflexivity|]. intros _. split; reflexivity.
+Qed.
+
+Lemma estep_ghost ds pc oc s l s' : estep pc oc s l = Some s' -> einv ds s -> ghost_ok ds s -> ghost_ok ds s'.
+Proof.
+  intros H [_ [_ Hdok]] Hg. destruct l as [k|k|k|pl]; cbn [estep] in H.
+  - destruct (nth_error (e_devs s) k) as [d|] eqn:Ek; [|discriminate].
+    destruct (d_pend d) eqn:Ep; [|discriminate]. destruct (d_todo d) as [|e r] eqn:Et; [discriminate|].
+    destruct (Device.step (d_cfg d) (d_state d) e) as [st o] eqn:Es. injection H as <-.
+    intros j d' c h Hj Hc. cbn [e_devs e_relay] in *.
+    destruct (Nat.eq_dec j k) as [->|Hne].
+    + rewrite (nth_error_set_nth_same _ _ _ _ Ek) in Hj. injection Hj as <-.
+      destruct (Hg k d c h Ek Hc) as [Hh Hrun]. destruct (Hdok k d c h Ek Hc) as [Hcfg [Hcl _]].
+      assert (Hnc : d_closed d = false).
+      { destruct (d_closed d); [|reflexivity]. specialize (Hcl eq_refl). rewrite Et in Hcl. discriminate. }
+      destruct (Hrun Hnc) as [Hst Hsent]. split.
+      * cbn [d_done d_todo]. rewrite <- app_assoc. cbn. rewrite <- Et. exact Hh.
+      * intros _. cbn [d_state d_pend d_done]. rewrite run_snoc.
+        destruct (Device.run c (d_done d)) as [s1 o1] eqn:Er. cbn [fst snd] in Hst, Hsent.
+        rewrite Hcfg, Hst in Es. rewrite Es. cbn [fst snd]. split; [reflexivity|].
+        rewrite Ep, app_nil_r in Hsent. rewrite Hsent, all_midi_app. cbn [all_midi flat_map]. rewrite app_nil_r. reflexivity.
+    + rewrite (nth_error_set_nth_other _ _ _ _ Hne) in Hj. exact (Hg j d' c h Hj Hc).
+  - destruct (nth_error (e_devs s) k) as [d|] eqn:Ek; [|discriminate].
+    destruct (d_pend d) eqn:Ep; [|discriminate]. destruct (d_todo d) as [|e r] eqn:Et; [|discriminate].
+    destruct (d_closed d) eqn:Ec; [discriminate|].
+    destruct (Device.cleanup (d_cfg d) (d_state d)) as [st ms] eqn:Es. injection H as <-.
+    intros j d' c h Hj Hc. cbn [e_devs e_relay] in *.
+    destruct (Nat.eq_dec j k) as [->|Hne].
+    + rewrite (nth_error_set_nth_same _ _ _ _ Ek) in Hj. injection Hj as <-.
+      destruct (Hg k d c h Ek Hc) as [Hh _]. split; [cbn [d_done d_todo]; rewrite <- Et; exact Hh|]. cbn. discriminate.
+    + rewrite (nth_error_set_nth_other _ _ _ _ Hne) in Hj. exact (Hg j d' c h Hj Hc).
+  - destruct (nth_error (e_devs s) k) as [d|] eqn:Ek; [|discriminate].
+    destruct (d_pend d) as [|x p] eqn:Ep; [discriminate|].
+    destruct (ostep pc oc (e_relay s) (Enter (k, x))) as [r|] eqn:Er; [|discriminate]. injection H as <-.
+    intros j d' c h Hj Hc. cbn [e_devs e_relay] in *. rewrite (ostep_sent_enter _ _ _ _ _ _ j Er).
+    destruct (Nat.eq_dec j k) as [->|Hne].
+    + rewrite Nat.eqb_refl. rewrite (nth_error_set_nth_same _ _ _ _ Ek) in Hj. injection Hj as <-.
+      destruct (Hg k d c h Ek Hc) as [Hh Hrun]. split; [exact Hh|]. cbn [d_closed d_state d_pend d_done]. intro Hnc.
+      destruct (Hrun Hnc) as [Hst Hsent]. split; [exact Hst|]. rewrite <- Hsent, Ep, <- app_assoc. reflexivity.
+    + apply Nat.eqb_neq in Hne as Hb. rewrite Hb.
+      rewrite (nth_error_set_nth_other _ _ _ _ Hne) in Hj. exact (Hg j d' c h Hj Hc).
+  - destruct pl as [|i|p]; [| |discriminate].
+    + destruct (ostep pc oc (e_relay s) Deliver) as [r|] eqn:Er; [|discriminate]. injection H as <-.
+      intros j d' c h Hj Hc. cbn [e_devs e_relay] in *.
+      rewrite (ostep_sent_same _ _ _ _ _ (fun q (E : Deliver = Enter q) => ltac:(discriminate E)) Er). exact (Hg j d' c h Hj Hc).
+    + destruct (ostep pc oc (e_relay s) (Move i)) as [r|] eqn:Er; [|discriminate]. injection H as <-.
+      intros j d' c h Hj Hc. cbn [e_devs e_relay] in *.
+      rewrite (ostep_sent_same _ _ _ _ _ (fun q (E : Move i = Enter q) => ltac:(discriminate E)) Er). exact (Hg j d' c h Hj Hc).
+Qed.
+
+Lemma ghost_reachable ds pc oc s : reachable (estep pc oc) (einit ds) s -> ghost_ok ds s.
+Proof.
+  induction 1 as [|s l s' R IH H]; [apply ghost_init|].
+  exact (estep_ghost _ _ _ _ _ _ H (einv_reachable _ _ _ _ R) IH).
+Qed.
+
+(* At every event boundary of device k - whatever the other devices, the relay and the port are doing - the port has
+   received from k exactly the model's output for the prefix of k's history processed so far. *)
+Theorem e2e_boundary ds pc oc s k d c h :
+  reachable (estep pc oc) (einit ds) s -> nth_error (e_devs s) k = Some d -> nth_error ds k = Some (c, h) ->
+  at_boundary s k d ->
+  d_done d ++ d_todo d = h /\ d_state d = fst (Device.run c (d_done d)) /\
+  at_port s k = all_midi (snd (Device.run c (d_done d))).
+Proof.
+  intros R Hd Hc [Hnc [Hp Hr]]. destruct (ghost_reachable _ _ _ _ R k d c h Hd Hc) as [Hh Hrun].
+  destruct (Hrun Hnc) as [Hst Hsent]. split; [exact Hh|]. split; [exact Hst|].
+  destruct (einv_reachable _ _ _ _ R) as [[H1 H2] _].
+  rewrite <- Hsent, Hp, app_nil_r, <- H2, <- H1. unfold oflow, at_port. rewrite proj_app.
+  unfold in_relay in Hr. rewrite Hr, app_nil_r. reflexivity.
+Qed.
+
+(* ---- per-prefix theorems carried to the port at event boundaries *)
+From HIDI Require Import Proofs.DeviceCC.
+
+(* C07: at every event boundary of device k at most one controller of each bidirectional pair is non-zero at the receiver
+   behind the port *)
+Theorem e2e_cc_at_most_one ds pc oc s k d c h A :
+  reachable (estep pc oc) (einit ds) s -> nth_error (e_devs s) k = Some d -> nth_error ds k = Some (c, h) ->
+  at_boundary s k d -> cc_family A -> Forall (c07_event c A) h ->
+  let R := recv_cc [] (at_port s k) in
+  forall a, In a A -> a_bidi a = true ->
+    cc_value R (pos_key (d_state d) a) = 0%N \/ cc_value R (neg_key (d_state d) a) = 0%N.
+Proof.
+  intros R0 Hd Hc Hb HA He R a Ha Hbi. destruct (e2e_boundary _ _ _ _ _ _ _ _ R0 Hd Hc Hb) as [Hh [Hst Hport]].
+  subst R. rewrite Hport, Hst. rewrite <- Hh in He.
+  exact (at_most_one c A (d_done d) HA (forall_prefix _ _ _ He) a Ha Hbi).
+Qed.
+
+(* C01: at every event boundary of device k at which no key is down and no emulated key is engaged, nothing is sounding at
+   the receiver behind the port *)
+Theorem e2e_quiescent_silent ds pc oc s k d c h :
+  reachable (estep pc oc) (einit ds) s -> nth_error (e_devs s) k = Some d -> nth_error ds k = Some (c, h) ->
+  at_boundary s k d -> alternating h -> keys_down (d_done d) = [] -> analogT (d_state d) = [] ->
+  recv [] (at_port s k) = [].
+Proof.
+  intros R0 Hd Hc Hb Halt Hk Ha. destruct (e2e_boundary _ _ _ _ _ _ _ _ R0 Hd Hc Hb) as [Hh [Hst Hport]].
+  rewrite Hport. rewrite <- Hh in Halt. apply quiescent_silent; [exact (alternating_prefix _ _ Halt)|exact Hk|].
+  rewrite <- Hst. exact Ha.
+Qed.
